@@ -56,6 +56,12 @@ FIXED = [
 ]
 
 KNOWN = [
+    ('C10', 'json/invalid-utf8-accepted-from-memory-rejected-from-stream',
+     'JSON with ill-formed UTF-8 inside a string (e.g. ["a\\xC0\\x80b"]) is accepted by the memory entry point (bytes copied as is, or UtfEncodingError / policy Skip applied later when the target is a wide string) but rejected with ParsingException by the stream entry point, whose AutoUTF transcoder validates; validating in memory too (kParseValidateEncodingFlag) breaks upstream test RapidJsonArchive.ShouldSkipInvalidUtfWhenPolicyIsSkip'),
+    ('C10', 'json/memory-accepts-partial-utf8-bom',
+     'an invalid JSON document that starts with a fragment of the UTF-8 BOM (a lone EF, BB or BF byte, e.g. BF 5B 31 5D) is accepted when loaded from memory and rejected when loaded from a stream: RapidJSON 1.1.0 EncodedInputStream<UTF8<>, MemoryStream> skips each BOM byte independently (third-party behaviour behind Document::Parse(const char*, size_t))'),
+    ('C10', 'csv/stream-utf8-nobom/text-with-nul-misdetected',
+     'the same BOM-less UTF-8 CSV bytes that contain U+0000 (e.g. a,b CRLF 1,x<00>y CRLF) load correctly from memory but are detected as UTF-16 when read from a stream (DetectEncoding scans the first chunk for zero bytes) and give other rows or a parsing error; see the C01 entry'),
     ('C01', 'json/double-parsed-inexactly',
      'about a third of random doubles saved to JSON are loaded 1-3 ULP off (e.g. bits 71c345dc8ea53499 saved as 1.0039996348836319e240 come back as ...349a): RapidJSON parses with kParseDefaultFlags; enabling kParseFullPrecisionFlag in RapidJSON 1.1.0 makes numbers such as 0.<400 zeros>1 read out of bounds in GetCachedPower10 (observed under UBSan/ASan), so the one-flag repair is not safe with this dependency'),
     ('C01', 'json/float-max-rejected-after-inexact-parse',
